@@ -139,13 +139,17 @@ PyObject *invoke(record<Ret, Args...> *rec, PyObject *args, std::index_sequence<
         return nullptr;
     }
     if (monitor()) {
+        monitor()(rec->name.c_str(), -1, nullptr);  // call begins
         (notify(rec->name.c_str(), (int)I, std::get<I>(cs)), ...);
     }
     if constexpr (std::is_void_v<Ret>) {
         rec->fn(std::get<I>(cs).take()...);
+        if (monitor()) monitor()(rec->name.c_str(), -2, nullptr);  // call ended
         Py_RETURN_NONE;
     } else {
-        return to_py(rec->fn(std::get<I>(cs).take()...));
+        auto r = rec->fn(std::get<I>(cs).take()...);
+        if (monitor()) monitor()(rec->name.c_str(), -2, nullptr);
+        return to_py(r);
     }
 }
 
